@@ -9,7 +9,7 @@
 From Coq Require Import List NArith ZArith Bool.
 Import ListNotations.
 Require Import Celma.Common.Res Celma.ArgH.Key Celma.ArgH.Table Celma.ArgH.Lex Celma.ArgH.Handler
-               Celma.ArgH.HandlerProofs.
+               Celma.ArgH.HandlerProofs Celma.ArgH.Spell Celma.ArgH.RulesProofs.
 
 (** Normal return of evalArguments (any sources, any configuration, any words)
     implies: every mandatory argument holds a value, no cardinality is short
@@ -101,3 +101,31 @@ Theorem C02_pinned_notify_refuted :
   eval_arguments (cfg_lr true) [VBool false; VBool false] [] None argv_l_right = Err ERuntime.
 Proof. exact pinned_notify_accepts_excluded. Qed.
 Print Assumptions C02_pinned_notify_refuted.
+
+(** Grammar form (closes the loop with C01): for every configuration whose
+    requires/excludes specifications name each argument in one way, every list
+    of uses and EVERY legal spelling of it - if evaluation returns normally,
+    the abstract line obeys all declared rules ([rules], ArgH/RulesProofs.v):
+    every key designates a defined argument; every mandatory argument is used
+    (or its destination already held a value); every value passes its checks
+    and converts; no argument is used more often than its cardinality allows;
+    no argument is used after one that excludes it; every argument required by
+    a used argument is used after it; every all_of / any_of / one_of constraint
+    is met; differ / disjoint hold on the final values. *)
+Theorem C02_accepted_obeys_rules :
+  forall c inits us ws s',
+    fixed_notify c = true -> RulesProofs.specs_canonical c -> length inits = length (args c) ->
+    Spell.spell c us ws -> eval_arguments c inits [] None ws = Ok s' ->
+    RulesProofs.rules c inits us s'.
+Proof. exact RulesProofs.accepted_obeys_rules. Qed.
+Print Assumptions C02_accepted_obeys_rules.
+
+(** Non-vacuity: the hypotheses are met by the configuration of
+    C02_pinned_notify_refuted (l excludes r) with the accepted line "-r". *)
+Example C02_nonvacuous :
+  fixed_notify (cfg_lr true) = true /\ RulesProofs.specs_canonical (cfg_lr true) /\
+  is_ok (eval_arguments (cfg_lr true) [VBool false; VBool false] [] None [[45; 114]]%N) = true.
+Proof.
+  split; [reflexivity|]. split; [|vm_compute; reflexivity].
+  intros k1 k2 H1 H2 _. cbn in H1, H2. destruct H1 as [<-|[]]. destruct H2 as [<-|[]]. reflexivity.
+Qed.
